@@ -13,6 +13,9 @@ import wn
 
 from .. import env, mk, runner
 
+# wn.lexicons() warns about every declared dependency that is not installed: millions of lines per run
+warnings.filterwarnings("ignore", category=wn.WnWarning)
+
 PROP = 'C08'
 
 MANIFEST = dict(
@@ -30,10 +33,11 @@ ATOMS = ['*', 'a', 'ab', 'b', 'zz', 'a:1', 'a:1.0', 'a:2+x', 'ab:1', 'b:1', 'b:2
          'a:*', 'ab:*', 'b:*', 'zz:*', '*:1', '*:1.0', '*:2+x', '*:9', 'a*', 'b*', 'a*:1',
          '*:1*', '*:2*', 'a*:*', '*:*']
 # glob patterns other than the star: '?' (one character) and '[...]' (one of a set)
-QGLOBS = ['?:1', 'a:?', 'a?:1', '[ab]:1', 'a:[12]*', 'b:2-r?', 'a:1.?', '[ab]?:1']
+QGLOBS = ['?:1', 'a:?', 'a?:1', '[ab]:1', 'a:[12]*', 'b:2-r?', 'a:1.?', '[ab]?:1',
+          '?', 'a?', '[ab]', '?b', '[ab]?']       # without a version part: every version of every matching id
 ATOMS += QGLOBS
 QUICK_ATOMS = ['*', 'a', 'ab', 'b', 'zz', 'a:1', 'a:2+x', 'b:2-rc', 'a:9', 'a:*', 'b:*',
-               '*:1', 'a*', '*:1*', '*:2*', '?:1', 'a:?', '[ab]:1', 'a:[12]*']
+               '*:1', 'a*', '*:1*', '*:2*', '?:1', 'a:?', '[ab]:1', 'a:[12]*', '?', '[ab]', 'a?']
 LANGS = [None, 'en', 'es', 'cmn-Hans', 'xx']
 
 
